@@ -145,3 +145,16 @@ MUTANTS += [
     ("c18-async-timeout-swallowed", "C18", [(TA, "            msg = 'Reading from {}:{} timed out ({} seconds)'.format(self._host, self._port, transport_timeout_s)\n            raise TcpTimeoutException(msg) from exc", "            return b''")]),
     ("c16-tcp-sync-drops-first-byte", "C16", [(T, "            return self._connection.recv(numbytes)", "            d = self._connection.recv(numbytes)\n            return d[1:] if len(d) == 5 else d")]),
 ]
+U = "adb_shell/transport/usb_transport.py"
+MUTANTS += [
+    ("c20-seconds-as-ms", "C20", [(U, "return int(transport_timeout_s * 1000 if transport_timeout_s is not None else self._default_transport_timeout_s * 1000)", "return int(transport_timeout_s if transport_timeout_s is not None else self._default_transport_timeout_s * 1000)")]),
+    ("c20-default-ignored", "C20", [(U, "return int(transport_timeout_s * 1000 if transport_timeout_s is not None else self._default_transport_timeout_s * 1000)", "return int(transport_timeout_s * 1000 if transport_timeout_s is not None else DEFAULT_TIMEOUT_S * 1000)")]),
+    ("c20-endpoints-swapped", "C20", [(U, "        self._read_endpoint = read_endpoint\n        self._write_endpoint = write_endpoint", "        self._read_endpoint = write_endpoint\n        self._write_endpoint = read_endpoint")]),
+    ("c20-close-keeps-handle", "C20", [(U, "        finally:\n            self._transport = None", "        finally:\n            pass")]),
+    ("c20-revert-F6", "C20", [(U, "        self._transport = transport\n        self._read_endpoint = read_endpoint", "        self._transport = transport\n        self._read_endpoint = read_endpoint"),
+                               (U, "            warnings.warn('Kernel driver not found for interface: %s.' % iface_number)\n\n        # # When this object is deleted", "            warnings.warn('Kernel driver not found for interface: %s.', iface_number)\n\n        # # When this object is deleted")]),
+    ("c20-read-one-more", "C20", [(U, "self._transport.bulkRead(self._read_endpoint, numbytes, timeout=", "self._transport.bulkRead(self._read_endpoint, numbytes + 1, timeout=")]),
+    ("c20-write-error-not-wrapped", "C20", [(U, "        except usb1.USBError as e:\n            raise exceptions.UsbWriteFailedError(", "        except usb1.USBErrorTimeout as e:\n            raise exceptions.UsbWriteFailedError(")]),
+    ("c20-no-claim", "C20", [(U, "        self._transport.claimInterface(self._interface_number)", "        pass")]),
+    ("c20-serial-matcher-ignored", "C20", [(U, "        return lambda device: device.serial_number == serial", "        return lambda device: True")]),
+]
